@@ -10,7 +10,7 @@ func init() {
 	register(&Property{
 		ID:          "C03",
 		Run:         runC03,
-		Explanation: "The crash-point quantifier cannot be enumerated statically; what is decided is the chain of structural links every one of which is necessary for at-least-once across a crash: (R1–R4 = C02.R1–R4, re-evaluated) the upstream system hears an ack only on the success edge of a store commit that contains it; (R5 = C17.R5) a pipeline stored as Running is rewritten to the status both engines restart; (R6) a source is reopened with exactly the stored position — the Open request's Position is state().Position and state() reads Instance.State; (R7) connector state reaches the store only through the persister and the tabled service methods; (R8 = C01.R8) a nacked record is acked to the source only after its DLQ write succeeded and only for the stored prefix; (R9) the v2 worker's 'stop arrived before processing' branch discards the batch without acking or nacking anything.",
+		Explanation: "The crash-point quantifier cannot be enumerated statically; what is decided is the chain of structural links every one of which is necessary for at-least-once across a crash: (R1–R4 = C02.R1–R4, re-evaluated) the upstream system hears an ack only on the success edge of a store commit that contains it; (R5 = C17.R5) a pipeline stored as Running is rewritten to the status both engines restart; (R6) a source is reopened with exactly the stored position — the Open request's Position is state().Position and state() reads Instance.State; (R7) connector state reaches the store only through the persister and the tabled service methods; (R8 = C01.R8) a nacked record is acked to the source only after its DLQ write succeeded and only for the stored prefix; (R9) the v2 worker's 'stop arrived before processing' branch discards the batch without acking or nacking anything. Rules added later (after independent seeded changes and defect hunts) are not all enumerated here: every armed rule is listed with its description, kind and instance count under coverage.rules.",
 		NotDecided:  []string{"any particular crash instant", "the store's own crash consistency", "plugin behaviour (pruning upstreams)", "the v1 nodes' cancellation arms (decided under C12.R4)"},
 		Assumptions: []string{"a committed store transaction is durable", "C02's assumptions"},
 	})
